@@ -304,6 +304,34 @@ def run_nd(case, r):
             sc = max(1.0, float(np.max(np.abs(exp))))
             e = float(np.max(np.abs(got - exp)))
             r.check(e <= 1e-10 * sc, 'nd-differentiation-is-tensor-product', f'{tag}: D^{p} along axis {axis} does not act as the Kronecker product of the 1-D operator (err {e:.3e})')
+    # every other axis-parameterised N-D operator: Kronecker product of the 1-D operator of THAT axis with identities
+    def kron_check(name, Mnd, M1, axis):
+        M1 = dense(M1)
+        exp = outer([M1 @ v if i == axis else v for i, v in enumerate(vecs)])
+        Mnd = Mnd if not hasattr(Mnd, 'toarray') else Mnd
+        got = Mnd @ flat
+        ok_shape = got.shape == exp.shape
+        e = float(np.max(np.abs(got - exp))) if ok_shape else np.inf
+        r.check(ok_shape and e <= 1e-10 * max(1.0, float(np.max(np.abs(exp)))), 'nd-operator-is-tensor-product', f'{tag}: {name} along axis {axis} does not act as the Kronecker product of the 1-D operator of that axis with identities (err {e:.3e})')
+
+    for axis in range(dim):
+        for ax_arg in (axis, axis - dim):  # positive and negative axis indices
+            try:
+                kron_check('integration matrix', H.get_integration_matrix(axes=(ax_arg,)), one[axis].get_integration_matrix(), axis)
+            except NotImplementedError:
+                pass
+            kmax = max(1, Ns[axis] // 2)
+            kron_check('filter matrix', H.get_filter_matrix(axis=ax_arg, kmin=0, kmax=kmax), one[axis].get_filter_matrix(kmin=0, kmax=kmax), axis)
+            if bases[axis] in ('chebychev', 'ultraspherical') and Ns[axis] >= 3:
+                kron_check('Dirichlet recombination matrix', H.get_Dirichlet_recombination_matrix(axis=ax_arg), one[axis].get_Dirichlet_recombination_matrix(), axis)
+            if bases[axis] == 'chebychev' and Ns[axis] >= 3:
+                kron_check('basis change T2U', H.get_basis_change_matrix(axes=(ax_arg,), conv='T2U'), one[axis].get_basis_change_matrix(conv='T2U'), axis)
+    if dim >= 2:
+        a0, a1 = 0, dim - 1
+        D2 = H.get_differentiation_matrix(axes=(a0, a1))
+        exp = outer([dense(one[i].get_differentiation_matrix()) @ v if i in (a0, a1) else v for i, v in enumerate(vecs)])
+        e = float(np.max(np.abs(D2 @ flat - exp)))
+        r.check(e <= 1e-10 * max(1.0, float(np.max(np.abs(exp)))), 'nd-operator-is-tensor-product', f'{tag}: mixed derivative along axes {(a0, a1)} is not the product of the 1-D derivatives (err {e:.3e})')
     Id = H.get_Id()
     r.check(float(np.max(np.abs(Id @ flat - flat))) <= 1e-13 * max(1.0, float(np.max(np.abs(flat)))), 'nd-identity', f'{tag}: get_Id is not the identity')
     if all(b != 'fft' or True for b in bases):
